@@ -53,6 +53,10 @@ func (e errInvalidGroupOption) Format(w fmt.State, c rune) {
 func parseGroupString(s string) (group, error) {
 	components := strings.Split(s, ",")
 	g := group{Name: components[0]}
+	if g.Name == "" {
+		return g, newErrInvalidInput(
+			fmt.Sprintf("invalid group %q: group name cannot be empty", s), nil)
+	}
 	for _, c := range components[1:] {
 		switch c {
 		case "flatten":
